@@ -242,6 +242,9 @@ def discharge_one(vc):
         open(os.path.join(os.environ["PYVC_DUMP"], "vc%d_%04d.smt2" % (os.getpid(), _dump_n[0])), "w").write(text)
     st, be, model = cli_check(text)
     vc.status, vc.backend, vc.model, vc.time = st, be, model, time.time() - t0
+    if os.environ.get("PYVC_TRACE"):
+        import sys
+        print("[vc] %s %s %s %.1fs site=%s note=%s" % (vc.name, st, be, vc.time, vc.site, vc.note[:100]), file=sys.stderr)
 
 
 class _Group:
